@@ -37,6 +37,12 @@ RULE = (
     "multi-line statements, LF/CRLF line ends; each program is rendered with 3 data sets "
     "(counts 0/1/2/1.5/'3'/'abc', flags flipped, sync and async); (b) a bounded-exhaustive "
     "family: every filter form x count spelling x placement as a one-site template; "
+    "translator comments of every kind directly before ONE expression that yields 2+ "
+    "messages (ternary with both branches, + tail-filter argument, template string with two "
+    "messages, filter-argument message); the names the translate machinery takes as "
+    "arguments (context, count, plural, message_context, ...) bound in the SURROUNDING scope "
+    "(render data, assign, capture, for variable, with, macro parameter) around tags and "
+    "filters that do not pass them; "
     "(c) empty / comment-only / blank templates, the compliance corpus and single-edit "
     "mutants of generated templates for 'extraction never fails'. distinct = hash of "
     "(templates, data); non-trivial = the render made >= 1 catalog lookup."
@@ -111,6 +117,15 @@ BASE_DATA: dict[str, Any] = {
     "who": "World",
     "nothing": None,
 }
+# render data binding the names that translate tags / filters accept as ARGUMENTS; a tag
+# or filter that is not given them must not pick them up from the surrounding scope
+SPECIAL_DATA: list[dict[str, Any]] = [
+    {"context": "datactx"},
+    {"context": "datactx", "count": 0, "plural": "data plural"},
+    {"count": 0, "plural": "data plural", "message_context": "datactx2"},
+    {"context": 7, "count": 5, "singular": "data singular", "message": "data message"},
+    {"context": True, "count": 2, "plural": "data plural", "n": 2},
+]
 N_VALUES: list[Any] = [2, 0, 1, 1.5, "3", "abc", 7, True]
 
 # count spellings: (source text, value or ("var", name))
@@ -189,6 +204,7 @@ class Emit:
         self.in_liquid = False
         self.single_only = False
         self.in_macro = 0  # include is disabled inside macro bodies
+        self.special = 0  # > 0 while context/count/plural/... are bound in the scope
 
     # -- low level ------------------------------------------------------------
     def w(self, s: str) -> None:
@@ -257,6 +273,8 @@ class Emit:
             "obliged": True, "flags": [], "lines": [], "unit": unit,
             "unit_line": self.unit_line,
         }
+        if self.special:
+            s["flags"].append("special-names-in-scope")
         self.sites.append(s)
         return s
 
@@ -447,7 +465,8 @@ class Emit:
     def plain_operand(self) -> None:
         self.w(self.rng.choice(["'plain'", "who", "n", "42", '"plain text"', "items | join: ','"]))
 
-    def tstring(self, construct: str, unit: int, expr_line: int | None) -> None:
+    def tstring(self, construct: str, unit: int, expr_line: int | None,
+                count: int | None = None) -> None:
         """A template string with one or two embedded message expressions (one line;
         only single-quoted literals can appear inside the double-quoted string)."""
         rng = self.rng
@@ -456,7 +475,7 @@ class Emit:
         self.single_only = True
         try:
             self.w('"' + rng.choice(["a", "pre ", "x"]))
-            for _ in range(rng.choice([1, 1, 2])):
+            for _ in range(count or rng.choice([1, 1, 2])):
                 self.w("${ ")
                 s = self.new_site("filter", construct, unit)
                 s["lines"] = sorted({self.line, expr_line})
@@ -485,6 +504,20 @@ class Emit:
         if shape == "simple":
             self.message_operand(host, unit, ml, expr_line, form)
             self.plain_tail(ml)
+        elif shape in ("ternary-both", "ternary-tail-arg"):
+            # one expression, two (or three) messages
+            self.message_operand(host + "-ternary-left", unit, ml, expr_line, form)
+            self.w(self.gap(ml) + "if " + rng.choice(CONDS) + self.gap(ml) + "else" + self.gap(ml))
+            self.message_operand(host + "-ternary-alt", unit, ml, expr_line)
+            if shape == "ternary-tail-arg":
+                self.w(self.gap(ml) + "|| append: ")
+                self.tstring(host + "-tail-arg-tstring", unit, expr_line, 1)
+        elif shape == "tstring2":
+            self.tstring(host + "-tstring", unit, expr_line, 2)
+        elif shape == "filter-arg":
+            s = self.message_operand(host, unit, ml, expr_line, "t")
+            self.w((", " if "%(who)s" in s["singular"] else ": ") + "extra: ")
+            self.tstring(host + "-filter-arg-tstring", unit, expr_line, rng.choice([1, 2]))
         elif shape == "unobliged":
             self.unobliged_operand(host, unit, ml)
         elif shape == "tstring":
@@ -808,12 +841,51 @@ class Emit:
                 self.w(rng.choice(["", " ", "\n"]))
             self.comment("Translators:")
 
+    MULTI_SHAPES = ("ternary-both", "ternary-both", "ternary-tail-arg", "tstring2", "filter-arg")
+
+    def stmt_comment_then_multi(self, shape: str | None = None, host: str | None = None,
+                                kind: str | None = None, sep: str | None = None) -> None:
+        """A translator comment right before ONE expression that yields 2+ messages:
+        only the first of them may carry the comment."""
+        rng = self.rng
+        self.comment("Translators:", kind)
+        if not self.in_liquid:
+            self.w(sep if sep is not None else rng.choice(["", "\n", "\n", " "]))
+        first = len(self.sites)
+        self.stmt_message(host=host, shape=shape or rng.choice(self.MULTI_SHAPES))
+        for s in self.sites[first:]:
+            s["flags"].append("multi-message-expression")
+
+    def stmt_bind_special(self) -> None:
+        """Bind, in the surrounding scope, a name the translate machinery treats
+        specially; tags / filters that do not pass it must not pick it up."""
+        rng = self.rng
+        self.new_unit()
+        name, val = rng.choice([
+            ("context", "'asgctx'"), ("context", "'asgctx'"), ("context", "5"), ("context", "who"),
+            ("count", "0"), ("count", "5"), ("plural", "'assigned plural'"),
+            ("message_context", "'asgctx2'"), ("singular", "'assigned singular'"),
+        ])
+        if rng.random() < 0.2 and not self.in_liquid:
+            self.open_tag("capture")
+            self.w(" " + name)
+            self.close_tag()
+            self.w("capctx")
+            self.open_tag("endcapture")
+            self.close_tag()
+        else:
+            self.open_tag("assign")
+            self.w(f" {name} = {val}")
+            self.close_tag()
+        self.special += 1  # assignments stay in scope for the rest of the template
+
     def body(self, depth: int, n: int) -> None:
         rng = self.rng
         for _ in range(n):
             k = rng.choices(
-                ["msg", "text", "block", "tstring-tag", "partial", "comment", "liquid"],
-                [46, 18, 14 if depth < 3 else 0, 7, 5, 5, 5 if not self.in_liquid else 0],
+                ["msg", "text", "block", "tstring-tag", "partial", "comment", "liquid",
+                 "multi", "bind"],
+                [42, 16, 14 if depth < 3 else 0, 7, 5, 5, 5 if not self.in_liquid else 0, 7, 3],
             )[0]
             if self.in_liquid:
                 self.w(rng.choice(["", "  ", "\t", "    "]))
@@ -829,6 +901,10 @@ class Emit:
                 self.stmt_partial()
             elif k == "comment":
                 self.comment(rng.choice(["Translators:", "Translators:", "NOTE:", None]))
+            elif k == "multi":
+                self.stmt_comment_then_multi()
+            elif k == "bind":
+                self.stmt_bind_special()
             else:
                 self.stmt_liquid(depth)
             if not self.in_liquid:
@@ -836,8 +912,9 @@ class Emit:
 
     def stmt_block(self, depth: int) -> None:
         rng = self.rng
-        kind = rng.choice(["if", "if", "unless", "for", "for", "case", "capture", "with", "macro"])
-        if self.in_liquid and kind == "macro":
+        kind = rng.choice(["if", "if", "unless", "for", "for", "case", "capture", "with", "macro",
+                           "for-special", "with-special", "macro-special"])
+        if self.in_liquid and kind.startswith("macro"):
             kind = "if"
         n = rng.randint(1, 3)
         self.new_unit()
@@ -917,6 +994,42 @@ class Emit:
             self.body(depth + 1, n)
             self.open_tag("endwith")
             self.close_tag()
+        elif kind in ("for-special", "with-special", "macro-special"):
+            # the body runs with context / count / plural bound by the enclosing block
+            name = ""
+            if kind == "for-special":
+                self.open_tag("for")
+                self.w(" " + rng.choice(["context", "context", "count", "plural"]) + " in "
+                       + rng.choice(["items", "(0..2)", "(1..2)"]))
+                end = "endfor"
+            elif kind == "with-special":
+                self.open_tag("with")
+                self.w(" " + ", ".join(rng.sample(
+                    ["context: 'withctx'", "count: 0", "count: 3", "plural: 'with plural'",
+                     "message_context: 'withctx2'", "context: who"], rng.randint(1, 3))))
+                end = "endwith"
+            else:
+                self.macros += 1
+                name = f"mac{self.macros}"
+                self.open_tag("macro")
+                self.w(f" {name} context, count: 0, plural: 'macro plural'")
+                end = "endmacro"
+                self.in_macro += 1
+            self.close_tag()
+            self.w(eol)
+            self.special += 1
+            self.body(depth + 1, n)
+            if not self.in_liquid and rng.random() < 0.5:
+                self.stmt_translate({"ctx": "none"})
+            self.special -= 1
+            self.open_tag(end)
+            self.close_tag()
+            if name:
+                self.in_macro -= 1
+                self.new_unit()
+                self.open_tag("call")
+                self.w(f" {name} 'callctx'")
+                self.close_tag()
         else:
             self.macros += 1
             name = f"mac{self.macros}"
@@ -988,6 +1101,9 @@ def build_case(rng: random.Random, size: int, rare: bool = True) -> dict[str, An
             d["flag"] = rng.random() < 0.5
             d["cx"] = rng.choice(["dynctx", "", None, 5])
             d["items"] = rng.choice([[1, 2], [1, 2, 3, 5], [2]])
+        if i and rng.random() < 0.6:
+            # names the translate machinery treats specially, bound by the caller
+            d.update(rng.choice(SPECIAL_DATA))
         datas.append(d)
     return {
         "templates": templates, "root": "tA", "sites": sites, "comments": comments,
@@ -1002,7 +1118,7 @@ def build_case(rng: random.Random, size: int, rare: bool = True) -> dict[str, An
 
 ENUM_HOSTS = ["output", "output-ml", "echo", "assign-ml", "liquid-echo", "liquid-assign",
               "ternary-left", "ternary-alt", "tstring", "in-for", "in-if-after-comment",
-              "in-capture"]
+              "in-capture", "in-with-special", "in-for-context", "after-assign-context"]
 
 
 def enum_cases(rng: random.Random) -> list[dict[str, Any]]:
@@ -1019,6 +1135,8 @@ def enum_cases(rng: random.Random) -> list[dict[str, Any]]:
             d = dict(BASE_DATA)
             d["n"] = nv
             d["flag"] = nv != 0
+            if nv == 1:
+                d.update(SPECIAL_DATA[1])
             datas.append(d)
         out.append({"templates": {"tA": e.source()}, "root": "tA", "sites": e.sites,
                     "comments": e.comments, "datas": datas, "modes": ["sync", "sync", "async"],
@@ -1084,6 +1202,20 @@ def enum_cases(rng: random.Random) -> list[dict[str, Any]]:
             e.w(rng.choice(["", "\n"]))
             e.stmt_message(form=form, host="output", shape="simple")
             e.w("\n{% endif %}")
+        elif host == "in-with-special":
+            e.w("{% with context: 'withctx', count: 0, plural: 'with plural' %}\n")
+            e.special += 1
+            e.stmt_message(form=form, host="output", shape="simple")
+            e.w("\n{% endwith %}")
+        elif host == "in-for-context":
+            e.w("{% for context in (1..2) %}{% for count in (0..1) %}\n")
+            e.special += 1
+            e.stmt_message(form=form, host="echo", shape="simple")
+            e.w("\n{% endfor %}{% endfor %}")
+        elif host == "after-assign-context":
+            e.w("{% assign context = 'asgctx' %}{% assign plural = 'assigned plural' %}\n{% assign count = 0 %}")
+            e.special += 1
+            e.stmt_message(form=form, host="output", shape="simple")
         else:
             e.w("{% capture c %}\n\n")
             e.stmt_message(form=form, host="output", shape="simple")
@@ -1107,16 +1239,60 @@ def enum_cases(rng: random.Random) -> list[dict[str, Any]]:
                 if ctx == "empty" and cnt is not None and cnt[0] not in ("1", "2", "5"):
                     continue
                 for ml in (False, True):
-                    for pre in ("", "comment", "text-lines"):
+                    for pre in ("", "comment", "text-lines", "assign-context", "for-context",
+                                "with-special", "macro-param-context"):
+                        if ml and pre not in ("", "comment", "text-lines"):
+                            continue
+
                         def fn(e: Emit, plural=plural, ctx=ctx, cnt=cnt, ml=ml, pre=pre) -> None:
                             e.rng = random.Random(f"{plural}:{ctx}:{cnt}:{ml}:{pre}")
+                            post = ""
                             if pre == "comment":
                                 e.comment("Translators:")
                                 e.w("\n")
                             elif pre == "text-lines":
                                 e.w("a\nb\n  ")
+                            elif pre == "assign-context":
+                                e.w("{% assign context = 'asgctx' %}\n{% assign count = 0 %}"
+                                    "{% assign plural = 'assigned plural' %}\n")
+                            elif pre == "for-context":
+                                e.w("{% for context in items %}{% for count in (0..1) %}\n")
+                                post = "{% endfor %}\n{% endfor %}"
+                            elif pre == "with-special":
+                                e.w("{% with context: who, count: 0, plural: 'with plural' %}")
+                                post = "{% endwith %}"
+                            elif pre == "macro-param-context":
+                                e.w("{% macro mm context, count: 0 %}\n")
+                                post = "{% endmacro %}{% call mm 'callctx' %}"
+                            if pre not in ("", "comment", "text-lines"):
+                                e.special += 1
                             e.stmt_translate({"plural": plural, "ctx": ctx, "count": cnt, "ml": ml})
+                            e.w(post)
                         one(fn)
+    # a translator comment directly before ONE expression that yields several messages
+    for kind in ("block", "hash", "hash2", "inline", "block-ml", "inline-ml", "liquid-line"):
+        for shape in ("ternary-both", "ternary-tail-arg", "tstring2", "filter-arg"):
+            for host in ("output", "echo", "assign"):
+                for sep in ("", "\n"):
+                    if kind == "liquid-line" and sep:
+                        continue
+
+                    def fn(e: Emit, kind=kind, shape=shape, host=host, sep=sep) -> None:
+                        e.rng = random.Random(f"multi:{kind}:{shape}:{host}:{sep}")
+                        if kind == "liquid-line":
+                            if host == "output":
+                                host = "echo"
+                            e.w("{% liquid\n")
+                            e.in_liquid = True
+                            e.stmt_comment_then_multi(shape, host, kind, sep)
+                            e.in_liquid = False
+                            e.w("%}")
+                        else:
+                            e.w("x\n")
+                            e.stmt_comment_then_multi(shape, host, kind, sep)
+                            e.w("\n")
+                            e.stmt_message(host="output", shape="simple")
+                    one(fn)
     return out
 
 
@@ -1349,10 +1525,12 @@ class Checker:
         if not fam:
             reasons = []
             if not any(pl_ok(e) for e in same):
-                reasons.append("count-" + count_class(site, data) if site["plural"] else "plural")
+                reasons.append("count-" + count_class(site, data) if site["plural"]
+                               else "plural-not-an-operand")
             if not any(ctx_ok(e) for e in same):
                 flags = [f for f in site["flags"] if f in ("context-after-keyword", "empty-context")]
-                reasons.append(flags[0] if flags else "context")
+                reasons.append(flags[0] if flags else
+                               "context-not-an-operand" if site["ctx_mode"] == "none" else "context")
             if not reasons:
                 reasons.append("combination")
             self.viol(
@@ -1372,6 +1550,10 @@ class Checker:
             )
             return
         ctx.count("lookups_matched")
+        if "special-names-in-scope" in site["flags"] or any(k in data for k in ("context", "count", "plural")):
+            ctx.count("lookups_matched_special_names_in_scope")
+            if site["kind"] == "tag" and site["ctx_mode"] == "none":
+                ctx.count("tag_lookups_without_context_arg_but_context_in_scope")
         ctx.seen("matched_constructs", site["construct"])
         ctx.seen("matched_forms", f"{kindname}:{func}")
         lit_line = site.get("lit_line", site["lines"][0])
@@ -1393,7 +1575,7 @@ class Checker:
             s = sites.get((ids[0][1], int(ids[0][0]))) if len(ids) == 1 else None
             ent_site.append(s if s is not None and s["tpl"] == name else None)
         units = sorted({s["unit"] for s in ent_site if s is not None})
-        attached: dict[str, int] = {}
+        attached: dict[str, tuple[str, int]] = {}
 
         def viol(how: str, what: str, e: dict[str, Any], c: dict[str, Any] | None) -> None:
             self.viol(f"comment-attached:{how}", what,
@@ -1426,16 +1608,21 @@ class Checker:
                     viol(f"across-intervening-message:{skipped[0]['construct']}",
                          f"comment {c['id']} is attached to {e['singular']!r} although message "
                          f"{skipped[0]['singular']!r} lies between them", e, c)
-                elif c["id"] in attached and attached[c["id"]] != s["unit"]:
-                    viol("to-more-than-one-message",
-                         f"comment {c['id']} is attached to more than one message", e, c)
+                elif c["id"] in attached and attached[c["id"]] != (s["tpl"], s["n"]):
+                    first = sites[attached[c["id"]]]
+                    rel = "same-statement" if first["unit"] == s["unit"] else "different-statements"
+                    viol(f"to-more-than-one-message:{rel}",
+                         f"comment {c['id']} is attached to {first['singular']!r} and also to "
+                         f"{e['singular']!r}", e, c)
                 elif s["unit_line"] - c["end_line"] >= 2:
                     viol("not-adjacent",
                          f"comment {c['id']} ends on line {c['end_line']} but the statement of message "
                          f"{e['singular']!r} starts on line {s['unit_line']}: at least one whole line "
                          f"lies between them, the message does not immediately follow", e, c)
                 else:
-                    attached[c["id"]] = s["unit"]
+                    attached[c["id"]] = (s["tpl"], s["n"])
+                    if "multi-message-expression" in s["flags"]:
+                        ctx.count("comment_attachments_multi_message_expr")
                     if c["line"] != s.get("lit_line", c["line"]):
                         ctx.count("comment_attachments_across_lines")
 
@@ -1478,11 +1665,14 @@ def floors(tier: str) -> dict[str, int]:
         "extraction_calls": 10_000 * k,
         "lineno_matched_beyond_line_1": 30_000 * k,
         "mutants_extracted": 1_500 * k,
-        "set:matched_constructs": 40,
+        "set:matched_constructs": 55,
         "set:matched_forms": 12,
         "set:comment_kinds_attached": 6,
         "set:runtime_funcs": 4,
-        "enum_cases": 1_200,
+        "enum_cases": 2_000,
+        "comment_attachments_multi_message_expr": 2_000 * k,
+        "lookups_matched_special_names_in_scope": 30_000 * k,
+        "tag_lookups_without_context_arg_but_context_in_scope": 4_000 * k,
         "edge_templates_extracted": 900,
     }
 
